@@ -70,7 +70,7 @@ def main(tier, replay):
             gen_bad += 1
             continue
         J('gram-%s-1n1f-B' % n, n, [1, 1, -1, 1, 1, i % 3, 1, 0, 0], True)
-    out = run_program_jobs(c, mod, infos, jobs, native_templates=NATIVE, record=8 if not quick else 0)
+    out = run_program_jobs_batched(c, mod, infos, jobs, batch=200, native_templates=NATIVE, record=8 if not quick else 0)
     bad_compile = sorted({k.split('/')[-1] for k in (out.get('load_errors') or {}) if k.startswith('scratch/g')})
     c.inconclusive = [r for r in c.inconclusive if not re.search(r'job gram-', r)]
     for k in (out.get('load_errors') or {}):
